@@ -106,11 +106,10 @@ Lemma frame_both : forall c f f',
 Proof. intros c f f' H1 H2. split; [now apply frame_lookup|now apply frame_forest_ok]. Qed.
 
 Lemma pretend_fs_unchanged_view : forall cfg w e cmd um,
-  cfg_ok cfg = true -> names_distinct cfg w = true -> e_pretend e = true ->
+  names_distinct cfg w = true -> e_pretend e = true ->
   wo_fs (v_after (view_of_model cfg w e cmd um)) = wo_fs w.
 Proof.
-  intros cfg w e cmd um Hcfg Hnd Hp. rewrite view_model_eq. cbv zeta. cbn [v_after wo_fs].
-  destruct (cfg_ok_spec cfg Hcfg) as (Lc & bsr & wsr & usr & Ec & bpr & gpr & _ & _ & HB & HW & HU & _).
-  exact (pretend_same cfg bsr wsr usr HB HW HU e um (start w) (LayersP.nodup_paths_NoDup _ Hnd) cmd Hp).
+  intros cfg w e cmd um Hnd Hp. rewrite view_model_eq. cbv zeta. cbn [v_after wo_fs].
+  exact (pretend_same cfg e um (start w) (LayersP.nodup_paths_NoDup _ Hnd) cmd Hp).
 Qed.
 
